@@ -132,7 +132,10 @@ def parseGraph (j : Json) : Except String Graph := do
   let anyOutput := (jBoolField? j "trig_any_output").getD true
   let rmCommits := (jBoolField? j "rm_commits").getD false
   let rmAlwaysDb := (jBoolField? j "rm_always_db").getD false
-  return { icp, fcp, start, runahead, tasks, seqs, stopPoint, cfgStop, anyOutput, rmCommits, rmAlwaysDb }
+  let triggerUnpooled := (jBoolField? j "trig_unpooled").getD true
+  let dbRowPerFlowSet := (jBoolField? j "db_row_per_flow_set").getD false
+  return { icp, fcp, start, runahead, tasks, seqs, stopPoint, cfgStop, anyOutput, rmCommits, rmAlwaysDb,
+           triggerUnpooled, dbRowPerFlowSet }
 
 def parseTaskId (s : String) : Except String (Int × String) :=
   match s.splitOn "/" with
